@@ -464,68 +464,9 @@ def chunk_loop(ck, prog, config, clause, fn_name, total_path, ops, seek_want=Non
     Checks: the initial remainder is the chunk's stored size; each op in `ops` uses the step variable as its
     length; the remainder decreases by the same step; the loop condition is rem > 0."""
     fn = prog.need_func(fn_name)
-    from ..ir import walk_stmts
     subst = unique_defs(fn)
-    loops = [s for s in walk_stmts(fn.body) if s.k == 'while']
-    found = False
-    detail = 'no while loop over the chunk size'
-    for lp in loops:
-        c = strip_transparent(lp.e)
-        if not (c.k == 'bin' and c.op in ('>', '!=') and const_value(c.a[1]) == 0 and strip(c.a[0]).k == 'var'):
-            continue
-        if c.op == '!=' and not is_unsigned_type(strip(c.a[0]).t, strip(c.a[0]).dt):
-            continue
-        rem = strip(c.a[0])
-        # initial value of rem
-        init = None
-        for s in walk_stmts(fn.body):
-            if s.k == 'decl' and s.var.decl == rem.decl and s.e is not None:
-                init = pstr(s.e, subst)
-            if s.k == 'expr' and strip(s.e).k == 'bin' and strip(s.e).op == '=' and \
-                    strip(strip(s.e).a[0]).k == 'var' and strip(strip(s.e).a[0]).decl == rem.decl and \
-                    s.line < lp.line:
-                init = pstr(strip(s.e).a[1], subst)
-        if init != total_path:
-            detail = 'remaining-bytes counter starts at %s, expected %s' % (init, total_path)
-            continue
-        # the step variable: `rem -= step`
-        step = None
-        for ex in [x for s in walk_stmts(lp.body) if s.e is not None for x in [s.e]]:
-            for n in walk(ex):
-                if n.k == 'bin' and n.op == '-=' and strip(n.a[0]).k == 'var' and strip(n.a[0]).decl == rem.decl:
-                    step = pstr(n.a[1], subst)
-        if step is None:
-            detail = 'remainder is not decreased by the step'
-            continue
-        # step <= rem: a branch `step > rem` followed by step = rem
-        bounded = False
-        for s in walk_stmts(lp.body):
-            if s.k == 'if':
-                cc = strip_transparent(s.e)
-                if cc.k == 'bin' and cc.op in ('>', '>=') and pstr(cc.a[0], subst) == step and \
-                        pstr(cc.a[1], subst) == rem.op:
-                    for t in walk_stmts(s.then):
-                        if t.k == 'expr' and strip(t.e).k == 'bin' and strip(t.e).op == '=' and \
-                                pstr(strip(t.e).a[0], subst) == step and pstr(strip(t.e).a[1], subst) == rem.op:
-                            bounded = True
-        okops = True
-        miss = []
-        for cname, lenidx in ops:
-            cs = [x for s in walk_stmts(lp.body) if s.e is not None for x in calls_in(s.e) if callee_name(x) == cname]
-            if not cs:
-                okops = False
-                miss.append(cname + ' missing')
-            for x in cs:
-                if pstr(x.a[1 + lenidx], subst) != step:
-                    okops = False
-                    miss.append('%s uses length %s, step is %s' % (cname, pstr(x.a[1 + lenidx], subst), step))
-        found = bounded and okops
-        detail = 'rem=%s step=%s bounded=%s ops=%s' % (init, step, bounded, 'ok' if okops else '; '.join(miss))
-        if found:
-            break
-    ck.ob(clause, rule_name, fn.name, 'consume-loop', found,
-          'loop handles exactly %s bytes in steps bounded by the remainder (%s)' % (total_path, detail)
-          if found else 'chunk loop broken: ' + detail, fn.file, fn.line, config=config)
+    from .consume import check_consume_loop
+    found = check_consume_loop(ck, prog, config, clause, fn, total_path, ops, rule_name)
     if seek_want is not None:
         sk = calls_of(fn, ('seek_data',))
         got = [(pstr(c.a[1], subst), lin(c.a[2], subst)) for c in sk]
